@@ -96,7 +96,7 @@ Qed.
 Lemma oinv_step st ev : OInv st -> OInv (step st ev).
 Proof.
   intro H. unfold Model.step. destruct (dead st) eqn:Hd; [exact H|].
-  destruct ev as [msgs s|r msgs s]; [apply oinv_send; assumption|].
+  destruct ev as [msgs s|r msgs s|]; [apply oinv_send; assumption| |split; [reflexivity|left; reflexivity]].
   destruct r as [b| |c]; cbn [Model.read].
   - destruct b as [|b0 b'].
     + destruct (handle_error_out None st) as (A & B & C & D & E). eapply oinv_same; eauto; try congruence.
@@ -222,6 +222,7 @@ Fixpoint eagain_runs_ok (r : N) (tr : list event) : bool :=
       | SErr c => (c =? gen.T11.EAGAIN) && (r <=? gen.T11.EAGAIN_MAX) && eagain_runs_ok (r + 1) t
       end
   | EvRead _ _ _ :: _ => false
+  | EvReconnect :: t => eagain_runs_ok 0 t             (* a new connection: the count starts again *)
   end.
 
 (* r = number of EAGAIN events immediately before *)
@@ -262,7 +263,10 @@ Lemma kinv_run tr : forall st r,
 Proof.
   induction tr as [|ev tr IH]; intros st r HK Hok.
   - destruct HK as (A & B & _). auto.
-  - destruct ev as [msgs s|? ? ?]; [|discriminate].
+  - destruct ev as [msgs s|? ? ?|]; [|discriminate|].
+    2:{ cbn [eagain_runs_ok] in Hok. cbn [Model.run_trace fold_left]. apply (IH _ 0); [|exact Hok].
+        destruct HK as (A & B & _). unfold Model.step. rewrite B. unfold Model.reconnect. rewrite B.
+        repeat split; cbn; auto; lia. }
     cbn [eagain_runs_ok] in Hok. apply andb_true_iff in Hok as [Hm Hok].
     cbn [Model.run_trace fold_left]. destruct s as [k|c].
     + apply (IH _ 0); [apply (kinv_sent st r); assumption|exact Hok].
